@@ -5,6 +5,8 @@
 // With LOCALS=1 every local variable and named result is renamed too.
 // SWAPCMP=1 mirrors every comparison with side-effect-free operands (a < b -> b > a);
 // SWAPIF=1 turns every if/else into if !(c) with the arms exchanged.
+// DEFERS=1 puts `defer func() {}()` at the top of every declared function; LOGS=1 puts a guarded
+// debug statement in front of every statement (both instead of the renaming).
 // usage: renameparams <repo-dir> <pkg-pattern>...
 package main
 
@@ -90,6 +92,30 @@ func main() {
 				}
 				ren[o] = true
 			}
+		}
+		if os.Getenv("DEFERS") != "" {
+			// an empty deferred call at the top of every declared function
+			for i, f := range p.Syntax {
+				var offs []int
+				for _, d := range f.Decls {
+					if fd, ok := d.(*ast.FuncDecl); ok && fd.Body != nil {
+						offs = append(offs, p.Fset.Position(fd.Body.Lbrace).Offset+1)
+					}
+				}
+				src, err := os.ReadFile(p.CompiledGoFiles[i])
+				if err != nil {
+					panic(err)
+				}
+				sort.Sort(sort.Reverse(sort.IntSlice(offs)))
+				for _, o := range offs {
+					src = append(src[:o:o], append([]byte("\ndefer func() {}()\n"), src[o:]...)...)
+					n++
+				}
+				if err := os.WriteFile(p.CompiledGoFiles[i], src, 0o644); err != nil {
+					panic(err)
+				}
+			}
+			continue
 		}
 		if os.Getenv("LOGS") != "" {
 			// a debug statement before every statement of every function body (text insertion at statement starts)
